@@ -119,7 +119,10 @@ TrCLoad ==
      /\ cmp' = Put(cmp, Ev.to, [c |-> a, mx |-> Ev.mx, lgNom |-> Ev.lgk])
      /\ On("C13") => (/\ Ev.ok
                       \* entries, theta, emptiness; v1/v2 images are always ordered
-                      /\ CSt(Ev.c) = [a EXCEPT !.ordered = IF Ev.ver < 3 THEN TRUE ELSE @])
+                      /\ CSt(Ev.c) = [a EXCEPT !.ordered = IF Ev.ver < 3 THEN TRUE ELSE @]
+                      \* the decoded sketch belongs to the seed it was read with (serial version 1 has no field for it)
+                      \* (an empty image keeps whatever its seed-hash field held: Java writes 0 there)
+                      /\ (~a.empty => B(Ev.sho) = B(Ev.shx)))
      /\ (Ev.ok => ObsOK(Len(a.entries), a.theta, Ev.mx, a.empty, Ev.lgk, Ev.o))
   /\ UNCHANGED obj
 
